@@ -114,6 +114,13 @@ func NewWorker(p *Program, id int, solverKind string, lim Limits) (*Worker, erro
 
 func (w *Worker) Close() { w.S.Close() }
 
+// ConcreteInputs drives a concrete (translator-validation) run: inputs and
+// choices are consumed in creation order; missing values are 0.
+type ConcreteInputs struct {
+	Inputs  []uint64
+	Choices []uint64
+}
+
 // InstanceResult summarises the exploration of one harness instance.
 type InstanceResult struct {
 	Harness         string
@@ -167,8 +174,10 @@ type Run struct {
 	reached      map[string]int
 	observed     []string
 	funcs        map[string]bool
-	mapOrder     int               // 0 insertion order, 1 all permutations
-	concrete     map[string]uint64 // concrete-mode input values by label occurrence (translator validation)
+	mapOrder     int      // 0 insertion order, 1 all permutations
+	concreteIn   []uint64 // concrete-mode (translator validation): input values in creation order
+	concreteCh   []uint64
+	chPos        int
 	concreteMode bool
 
 	startRetained      int
@@ -197,7 +206,7 @@ type inputSym struct {
 }
 
 // ExploreInstance explores every path of harness fn under params.
-func (w *Worker) ExploreInstance(fn *ssa.Function, params map[string]int, concreteInputs map[string]uint64) *InstanceResult {
+func (w *Worker) ExploreInstance(fn *ssa.Function, params map[string]int, concreteInputs *ConcreteInputs) *InstanceResult {
 	t0 := time.Now()
 	res := &InstanceResult{Harness: fn.Name(), Params: params, Reached: map[string]int{}, Funcs: map[string]bool{}}
 	q0, st0, u0 := w.S.Queries, w.S.Time, w.S.Unknowns
@@ -238,13 +247,17 @@ func (w *Worker) ExploreInstance(fn *ssa.Function, params map[string]int, concre
 		switch r.outcome {
 		case "ok":
 			res.Completed++
-			if concreteInputs != nil || len(r.observed) > 0 {
+			if concreteInputs != nil {
 				res.Observations = append(res.Observations, r.observed)
 			}
 			if res.SamplePath == nil {
 				res.SamplePath = r.describePath()
 			}
 		case "violation":
+			if concreteInputs != nil {
+				// a panic / deadlock in a concrete run: part of the observable behaviour
+				res.Observations = append(res.Observations, append(r.observed, "ended:"+r.violation.Kind))
+			}
 			k := r.violation.Key()
 			if !seenViol[k] {
 				seenViol[k] = true
@@ -257,6 +270,9 @@ func (w *Worker) ExploreInstance(fn *ssa.Function, params map[string]int, concre
 				res.Inconclusive = append(res.Inconclusive, "... more")
 			}
 		case "infeasible":
+			if concreteInputs != nil {
+				res.Observations = append(res.Observations, []string{"void"})
+			}
 		}
 		if w.Verbose > 1 {
 			fmt.Printf("[w%d] path %d outcome=%s steps=%d decisions=%d %s\n", w.ID, res.Paths, r.outcome, r.steps, len(w.dec), r.inconc)
@@ -321,19 +337,22 @@ func shortSite(s string) string {
 }
 
 // runOnce executes the harness once following w.dec as decision prefix.
-func (w *Worker) runOnce(fn *ssa.Function, params map[string]int, concreteInputs map[string]uint64) (r *Run) {
+func (w *Worker) runOnce(fn *ssa.Function, params map[string]int, concreteInputs *ConcreteInputs) (r *Run) {
 	r = &Run{
 		W: w, P: w.P, C: w.C,
-		globals:      map[*ssa.Global]*Value{},
-		inited:       map[*ssa.Package]bool{},
-		side:         map[any]any{},
-		params:       params,
-		tags:         map[string]string{},
-		reached:      map[string]int{},
-		funcs:        map[string]bool{},
-		evalMemo:     map[*sym.Term]uint64{},
-		concrete:     concreteInputs,
+		globals:  map[*ssa.Global]*Value{},
+		inited:   map[*ssa.Package]bool{},
+		side:     map[any]any{},
+		params:   params,
+		tags:     map[string]string{},
+		reached:  map[string]int{},
+		funcs:    map[string]bool{},
+		evalMemo: map[*sym.Term]uint64{},
+
 		concreteMode: concreteInputs != nil,
+	}
+	if concreteInputs != nil {
+		r.concreteIn, r.concreteCh = concreteInputs.Inputs, concreteInputs.Choices
 	}
 	r.startRetained = w.retained
 	r.firstRun = w.runsInInstance == 0
@@ -699,6 +718,13 @@ func (r *Run) Assume(c *sym.Term) {
 
 // Assert checks c on this path: a satisfiable negation is a violation.
 func (r *Run) Assert(g *Goroutine, c *sym.Term, kind, label string) {
+	if r.concreteMode {
+		if !c.IsConst() {
+			r.abort("symbolic assertion in a concrete run")
+		}
+		r.observed = append(r.observed, fmt.Sprintf("assert:%s=%v", label, c.K != 0))
+		return
+	}
 	if c.IsConst() {
 		r.concreteAsserts++
 		if c.K == 0 {
